@@ -313,6 +313,112 @@ example : exampleSPoint.Ok := by decide
 example : (parseRow false (showSLine exampleSPoint)).toOption = some exampleSPoint.row := by
   rw [line_roundtrip_strings exampleSPoint (by decide)]; rfl
 
+/-- the value of a parsed field is what the grammar reads from some token (for an integer:
+after its trip through `float64`). -/
+def FieldDenoted (f : Field) : Prop :=
+  (∃ tok v, specNum tok = some v ∧ f.val = embedParsed v) ∨ (∃ tok b, specStr tok = some b ∧ f.val = .str b)
+
+theorem parseField_denoted (noEsc hq : Bool) (s : Bytes) (f : Field) (h : parseField noEsc hq s = .ok f) :
+    FieldDenoted f := by
+  unfold parseField at h
+  cases hn : nextUnesc noEsc bEq s with
+  | none => rw [hn] at h; cases h
+  | some n =>
+    rw [hn] at h
+    simp only at h
+    split at h
+    · cases h
+    · split at h
+      · cases h
+      · split at h
+        · cases hp : parseStr (s.drop (n + 1)) with
+          | none => rw [hp] at h; cases h
+          | some v =>
+            rw [hp] at h
+            injection h with h; subst h
+            exact Or.inr ⟨_, v, by rw [← string_denotation]; exact hp, rfl⟩
+        · cases hp : parseNum (s.drop (n + 1)) with
+          | none => rw [hp] at h; cases h
+          | some v =>
+            rw [hp] at h
+            injection h with h; subst h
+            rw [value_denotation] at hp
+            cases hsp : specNum (s.drop (n + 1)) with
+            | none => rw [hsp] at hp; cases hp
+            | some sv =>
+              rw [hsp] at hp
+              injection hp with hp
+              exact Or.inl ⟨_, sv, hsp, hp.symm⟩
+
+theorem parseFields_denoted (noEsc hq : Bool) : ∀ (fuel : Nat) (s : Bytes) (fs : List Field),
+    parseFields noEsc hq fuel s = .ok fs → ∀ f ∈ fs, FieldDenoted f := by
+  intro fuel
+  induction fuel with
+  | zero => intro s fs h; cases h
+  | succ fuel ih =>
+    intro s fs h
+    rw [parseFields] at h
+    cases hn : nextUnquoted noEsc hq bComma s with
+    | none =>
+      rw [hn] at h
+      simp only at h
+      cases hp : parseField noEsc hq s with
+      | error e => rw [hp] at h; cases h
+      | ok f =>
+        rw [hp] at h
+        injection h with h; subst h
+        intro g hg
+        simp only [List.mem_singleton] at hg
+        subst hg
+        exact parseField_denoted _ _ _ _ hp
+    | some n =>
+      rw [hn] at h
+      simp only at h
+      cases hp : parseField noEsc hq (s.take n) with
+      | error e => rw [hp] at h; cases h
+      | ok f =>
+        rw [hp] at h
+        cases hr : parseFields noEsc hq fuel (s.drop (n + 1)) with
+        | error e => rw [hr] at h; cases h
+        | ok rest =>
+          rw [hr] at h
+          injection h with h; subst h
+          intro g hg
+          rcases List.mem_cons.mp hg with e | e
+          · subst e; exact parseField_denoted _ _ _ _ hp
+          · exact ih _ _ hr g e
+
+/-- **every field value of every accepted line is the grammar's reading of a token** — no
+line, valid or not, stores an invented value (as `v=abcf ↦ 0` was). -/
+theorem accepted_line_values_denoted (noEsc : Bool) (s : Bytes) (r : Row) (h : parseRow noEsc s = .ok r) :
+    ∀ f ∈ r.fields, FieldDenoted f := by
+  unfold parseRow at h
+  simp only at h
+  split at h
+  · cases h
+  · split at h
+    · cases h
+    · split at h
+      · cases h
+      · unfold parseTail at h
+        simp only at h
+        split at h
+        · split at h
+          · cases h
+          · rename_i fs hfs
+            injection h with h; subst h
+            exact parseFields_denoted _ _ _ _ _ hfs
+        · split at h
+          · split at h <;> cases h
+          · rename_i fs hfs
+            split at h
+            · split at h <;> cases h
+            · injection h with h; subst h
+              exact parseFields_denoted _ _ _ _ _ hfs
+
+
+example : FieldDenoted ⟨[118], .int 12⟩ := Or.inl ⟨[49, 50, 105], .int 12, by decide, by decide⟩
+
 /-! ## batches -/
 
 /-- **T9** a request block stores the rows of exactly the lines that parsed (an invalid line
